@@ -93,6 +93,13 @@ def _gen_class(rng, name, base=None, base_has_defaults=False, taken=(), redeclar
     if rng.random() < 0.1:
         body.append("def __post_init__(self): object.__setattr__(self, 'post', 1) if hasattr(type(self), '__dict__') and '__dict__' in dir(self) else None")
         body.pop()  # keep __post_init__ out: setting undeclared attributes is not slot-compatible by design
+    if rng.random() < 0.2:
+        # pseudo-fields: a class variable is no field at all, an init-only variable is a constructor argument only
+        body.append("KVAR: typing.ClassVar[int] = 11")
+        if rng.random() < 0.5:
+            body.append("ivar: dataclasses.InitVar[int] = 5")
+            body.append("def __post_init__(self, ivar): type(self).KVAR + ivar")
+            d["initvar"] = True
     d["body"] = body
     return d
 
@@ -155,7 +162,7 @@ class C19(PropBase):
                 # (chains: the class declared last is the likeliest base, so Grand <- Parent <- Child occurs)
                 b = classes[-1] if rng.random() < 0.6 else rng.choice(classes)
                 base = b["n"]
-                bhd = any("default" in f or "factory" in f for f in b["all_fields"])
+                bhd = any("default" in f or "factory" in f for f in b["all_fields"]) or bool(b.get("initvar_any"))
                 if b["flags"].get("frozen") or rng.random() < 0.0:
                     pass
             taken = [f["n"] for f in next(c for c in classes if c["n"] == base)["all_fields"]] if base else ()
@@ -175,10 +182,11 @@ class C19(PropBase):
                 d["all_fields"] = [f for f in b["all_fields"] if f["n"] not in own] + d["fields"]
             else:
                 d["all_fields"] = list(d["fields"])
+            d["initvar_any"] = bool(d.get("initvar") or (base and next(c for c in classes if c["n"] == base).get("initvar_any")))
             classes.append(d)
         # slotted bases are created by decorating inside the module source (history op) - keep twins raw
         for d in classes:
-            dd = {k: v for k, v in d.items() if k != "all_fields"}
+            dd = {k: v for k, v in d.items() if k not in ("all_fields", "initvar", "initvar_any")}
             decls.append(dd)
         for j, src in enumerate(BAD):
             decls.append({"d": "raw", "n": ["VwBadPlain", "VwBadMeta", "vw_factory"][j], "src": src})
@@ -372,8 +380,9 @@ class C19(PropBase):
         both("qualname", lambda: (S.__qualname__, S.__module__, S.__name__), lambda: (T.__qualname__, T.__module__, T.__name__))
         both("methods", lambda: sorted(k for k in vars(S) if not k.startswith("__") and k not in fl),
              lambda: sorted(k for k in vars(T) if not k.startswith("__") and k not in fl))
-        both("user-attrs", lambda: [getattr(s1, k, None) if not callable(getattr(s1, k, None)) else getattr(s1, k)() for k in ("KONST", "double")],
-             lambda: [getattr(t1, k, None) if not callable(getattr(t1, k, None)) else getattr(t1, k)() for k in ("KONST", "double")])
+        both("user-attrs", lambda: [getattr(s1, k, None) if not callable(getattr(s1, k, None)) else getattr(s1, k)() for k in ("KONST", "double", "KVAR", "ivar")],
+             lambda: [getattr(t1, k, None) if not callable(getattr(t1, k, None)) else getattr(t1, k)() for k in ("KONST", "double", "KVAR", "ivar")])
+        both("class-attrs", lambda: [repr(getattr(S, k, None)) for k in ("KONST", "KVAR", "ivar")], lambda: [repr(getattr(T, k, None)) for k in ("KONST", "KVAR", "ivar")])
         both("dataclass-params", lambda: _params(S), lambda: _params(T))
         both("field-names", lambda: [f.name for f in __import__("dataclasses").fields(S)], lambda: fl)
         # slot layout (no twin counterpart: checked against the statement directly)
